@@ -94,6 +94,8 @@ class Builder:
 
 def build_case(rng, cid, kind):
     where, defect, cls = DEFECTS[kind]
+    # the construct may start in the first column, after blanks or after a tab
+    ind = rng.choice(['', '', '  ', '\t', '      '])
     in_include = rng.random() < 0.4
     files = []
     main = Builder(rng, 'main.c')
@@ -128,11 +130,11 @@ def build_case(rng, cid, kind):
                 inc.phys('  g1 = %d;' % rng.randrange(9))
             if rng.random() < 0.3 and ' ' in defect:
                 a, b = defect.split(' ', 1)
-                n1 = inc.phys('  ' + a + ' \\')
+                n1 = inc.phys(ind + a + ' \\')
                 n2 = inc.phys('     ' + b)
                 expected_lines = [n1, n2]
             else:
-                expected_lines = [inc.phys('  ' + defect)]
+                expected_lines = [inc.phys(ind + defect)]
             inc.phys('  g1 = 7;')
             inc.phys('}')
         for _ in range(rng.randrange(0, 2)):
@@ -164,11 +166,11 @@ def build_case(rng, cid, kind):
                     main.phys('     comment */')
             if rng.random() < 0.3 and ' ' in defect:
                 a, b = defect.split(' ', 1)
-                n1 = main.phys('  ' + a + ' \\')
+                n1 = main.phys(ind + a + ' \\')
                 n2 = main.phys('     ' + b)
                 expected_lines = [n1, n2]
             else:
-                expected_lines = [main.phys('  ' + defect)]
+                expected_lines = [main.phys(ind + defect)]
             main.phys('  g1 = 3;')
             main.phys('}')
     return {'id': cid, 'kind': kind, 'class': cls, 'src': main.text(crlf=(rng.random() < 0.1)), 'files': files,
